@@ -79,7 +79,7 @@ def main():
         chdir = opt("--chdir")
 
         def num(name, default):
-            m = re.search(r'export %s="(\d+)"' % name, script)
+            m = re.search(r"""export %s=["']?(\d+)["']?""" % name, script)  # quoted or bare (create_command uses shlex.quote)
             return int(m.group(1)) if m else default
 
         stdout = opt("--output") or os.path.join(chdir or S, "slurm-%s.out" % jid)
